@@ -75,6 +75,21 @@ def gen_projects(run):
                 if p != "Main":
                     imports[p] = [x for x in ("Traits", "Data") if x != p and not (x == "Data" and p == "Traits" and rng.random() < 0.5)]
             ps.append({"imports": imports, "impls": [(a, "Traits", t), (b, "Traits", t)], "refs": []})
+    # the same impl twice in one package, the trait (and type) written plainly or with the package's own name in front
+    for pkg in PK:
+        for t in ("local", "int32", "Data::S"):
+            for sp1, sp2 in itertools.product(("plain", "qual"), repeat=2):
+                imports = {p: [] for p in PK}
+                imports["Main"] = [x for x in PK if x != "Main"]
+                if pkg not in ("Main", "Data"):
+                    imports[pkg] = ["Data"]
+                ps.append({"imports": imports, "impls": [(pkg, "self", t, sp1), (pkg, "self", t, sp2)], "refs": []})
+                ps.append({"imports": imports, "impls": [(pkg, "self", t, sp1)], "refs": []})
+    for t in ("local", "int32"):
+        for sp1, sp2 in itertools.product(("plain", "qual"), repeat=2):
+            imports = {p: [] for p in PK}
+            imports["Main"] = [x for x in PK if x != "Main"]
+            ps.append({"imports": imports, "impls": [("Traits", "Traits", t, sp1), ("Traits", "Traits", t, sp2)], "refs": []})
     # qualified references with / without import
     for src_pkg in PK:
         for tgt in PK:
@@ -126,16 +141,20 @@ def write_project(root, p):
         if pkg == "Data":
             s += "struct S { v: int32 }\n\nenum E { A, B }\n\n"
         s += "struct L%s { w: int32 }\n\n" % pkg
-        if any(ip == pkg and tp == "self" for ip, tp, _ in p["impls"]):
+        if any(im[0] == pkg and im[1] == "self" for im in p["impls"]):
             s += "trait Own%s {\n    fn own(Self) -> string;\n}\n\n" % pkg
-        for k, (ip, tp, t) in enumerate(p["impls"]):
+        for k, im in enumerate(p["impls"]):
+            ip, tp, t = im[0], im[1], im[2]
+            qual = len(im) > 3 and im[3] == "qual"   # the trait (and a local type) written with the package's own name in front
             if ip != pkg:
                 continue
             ts = ty_src(t, pkg)
+            if qual and t == "local":
+                ts = "%s::%s" % (pkg, ts)
             if tp == "self":
-                s += "impl Own%s for %s {\n    fn own(self: %s) -> string { \"o\" }\n}\n\n" % (pkg, ts, ts)
+                s += "impl %sOwn%s for %s {\n    fn own(self: %s) -> string { \"o%d\" }\n}\n\n" % (pkg + "::" if qual else "", pkg, ts, ts, k)
             else:
-                tr = "Show" if pkg == "Traits" else "Traits::Show"
+                tr = ("Traits::Show" if qual else "Show") if pkg == "Traits" else "Traits::Show"
                 s += "impl %s for %s {\n    fn show(self: %s) -> string { \"s%d\" }\n}\n\n" % (tr, ts, ts, k)
         # what other packages may refer to: a function, an enum, an inherent static method, a trait with an impl
         s += "fn fn_%s() -> int32 { 1 }\n\nenum E%s { V%s, W%s(int32) }\n\nimpl L%s {\n    fn make() -> L%s { L%s { w: 2 } }\n}\n\n" % (pkg, pkg, pkg, pkg, pkg, pkg, pkg)
@@ -220,7 +239,7 @@ def check(run):
         g = "[%s]" % "; ".join("(%d, [%s])" % (CODE[x], "; ".join(str(CODE[i]) for i in p["imports"][x])) for x in PK if x in live)
         impls = "[%s]" % "; ".join(
             "{| im_pkg := %d; im_trait_pkg := %d; im_trait := %d; im_ty := %s |}" % (CODE[ip], CODE[ip] if tp == "self" else 3, (20 + CODE[ip]) if tp == "self" else 7, ty_model(t, ip))
-            for ip, tp, t in p["impls"] if ip in live
+            for ip, tp, t in [im[:3] for im in p["impls"]] if ip in live
         )
         refs = "[%s]" % "; ".join("(%d, %d)" % (CODE[a], CODE[b]) for a, b, _ in p["refs"] if a in live)
         rv = real_verdict(r)
@@ -244,7 +263,7 @@ def check(run):
         live = reachable(p)
         if not r.get("ok"):
             continue
-        for ip, tp, t in p["impls"]:
+        for ip, tp, t in [im[:3] for im in p["impls"]]:
             if ip not in live:
                 continue
             trait_pkg = ip if tp == "self" else "Traits"
@@ -254,7 +273,7 @@ def check(run):
             for need in (trait_pkg, type_pkg):
                 if need and need != ip and need not in p["imports"][ip]:
                     wits.append({"kind": "package %s uses %s without importing it, accepted" % (ip, need), "project": p, "files": files_of(p)})
-        keys = [(("self" + ip) if tp == "self" else "Traits", t if t != "local" else "local" + ip) for ip, tp, t in p["impls"] if ip in live]
+        keys = [(("self" + ip) if tp == "self" else "Traits", t if t != "local" else "local" + ip) for ip, tp, t in [im[:3] for im in p["impls"]] if ip in live]
         if len(set(keys)) < len(keys):
             wits.append({"kind": "two implementations of one trait for one type accepted", "project": p, "files": files_of(p)})
         for a, b, _ in p["refs"]:
